@@ -105,6 +105,19 @@ def run(ctx):
             cov["transitions"] += res.generated
             cov["traces_validated_against_impl"] += st["replayed"]
             cov["configs"].append(st)
+        # ---- real flush timers and a process that is held up (suspended by the scheduler, say) for two and a half timer periods
+        # right after a store was set up, inside USE and CREATE DATABASE: Session.tla's Use and Tick are separate steps - a tick
+        # that arrives "inside" a USE is a tick before or after it, and changes nothing
+        out = []
+        pool.request_timeout = 120
+        pool.run_all([dict(steps=[], stall=True)], lambda q, r: out.append(r), chunk=1)
+        if not out or out[0].get("kind") == "infra":
+            raise vlib.Undecided("stalled-open scenario: %s" % (out and out[0].get("notes")))
+        cov["stalled_open_scenarios"] = 1
+        if not out[0]["ok"]:
+            vlib.report_violation(ctx, dict(kind="session-stall", detail=out[0].get("viol"),
+                                            how="real timers; the process pauses 260 ms at the end of newFileStore (hook H2) during USE / CREATE DATABASE"),
+                                  signature="stalled-open:" + (out[0].get("viol") or [""])[0][:80])
     finally:
         pool.close()
     # the promises of Session.tla without bounds (any number of databases, rows and steps): TLAPS proof, re-checked here
